@@ -18,6 +18,7 @@ import (
 //       by parsing generated file versions with the real parser;
 //   L2  correspondence of the real git.Changes (run on scratch repositories with a recording git runner) with
 //       Model/GitChanges on the captured `git log --name-status` text;
+//   L4  the whole pipeline on a history (log text, git answers, parser table, glob list -> final list) vs Model/GitBranch.classify;
 //   L3  end to end: `pint ci` with one marker block per state on scratch repositories built from generated histories,
 //       compared with the generator's own rule-level truth (oracle) and with the whole model pipeline.
 
@@ -508,6 +509,12 @@ func runC03(args []string) int {
 		if term, ok, broken := findCaseCoq(res); ok {
 			cw.add(fmt.Sprintf("FindCase %s %s", coqN(300000+i), term))
 			rep.hist("L3:find-cases")
+			if res.Uncovered == 0 {
+				rep.hist("hyp:glob-covers-head-entries-holds")
+			} else {
+				rep.hist("hyp:glob-covers-head-entries-fails")
+				rep.Notes = append(rep.Notes, fmt.Sprintf("history %d: %d HEAD entries of changed files have no glob entry at the same path and rule position", c.ID, res.Uncovered))
+			}
 			if broken > 0 {
 				rep.hist("L3:is-identical-not-equivalence")
 			}
@@ -515,8 +522,14 @@ func runC03(args []string) int {
 		} else {
 			rep.Notes = append(rep.Notes, fmt.Sprintf("history %d: Find failed in-process: %s %s %s", c.ID, res.ChangeErr, res.GlobErr, res.FindErr))
 		}
+		if term, ok := historyCaseCoq(res); ok {
+			cw.add(fmt.Sprintf("HistoryCase %s %s", coqN(400000+i), term))
+			rep.hist("L4:history-cases")
+			rep.count("L4|"+term, len(res.Changes) > 0)
+		}
 		rep.Cases[fmt.Sprint(200000+i)] = c
 		rep.Cases[fmt.Sprint(300000+i)] = c
+		rep.Cases[fmt.Sprint(400000+i)] = c
 	}
 	for _, c := range cases {
 		for _, s := range c.History.Strata {
